@@ -19944,6 +19944,17 @@ impl<
 						);
 					}
 					for (source, hash, cp_id, chan_id) in shutdown_result.dropped_outbound_htlcs {
+						// An HTLC which was still waiting in the stale channel's holding cell may have
+						// been released and committed after this `ChannelManager` was written. If the
+						// newer `ChannelMonitor` has it, the monitor will resolve it on-chain, so it
+						// must not be failed back here.
+						let in_monitor = monitor
+							.get_all_current_outbound_htlcs()
+							.iter()
+							.any(|(monitor_htlc_source, _)| *monitor_htlc_source == source);
+						if in_monitor {
+							continue;
+						}
 						let reason = LocalHTLCFailureReason::ChannelClosed;
 						failed_htlcs.push((source, hash, cp_id, chan_id, reason, None));
 					}
